@@ -17,6 +17,7 @@ import (
 	"bytes"
 	"fmt"
 	"io"
+	"strings"
 	"testing"
 
 	"github.com/oasisprotocol/curve25519-voi/primitives/merlin"
@@ -302,6 +303,7 @@ type c13Lib struct {
 	gx     int
 	chunkx int
 	out    func(step int, what string, b []byte)
+	retired *merlin.TranscriptRngBuilder // the builder of the current "fin" step
 	fail   func(sig, format string, a ...interface{})
 	dead   bool
 }
@@ -379,12 +381,36 @@ func (x *c13Lib) step(si int, op c13Op) {
 		i := c13Sel(op.I, len(w.lb))
 		ent := op.D.Bytes()
 		rd := &c13Reader{b: ent, mode: (op.G + x.chunkx) % 3, eofWithData: (op.G+x.chunkx)/3%2 == 1}
+		x.retired = w.lb[i]
 		r, err := w.lb[i].Finalize(rd)
 		w.lb = append(w.lb[:i:i], w.lb[i+1:]...)
 		if len(ent) < 32 {
 			// documented: an error is returned when the entropy source fails
 			if err == nil {
 				x.fail("TranscriptRngBuilder.Finalize:short-entropy-accepted", "step %d entropy %d bytes", si, len(ent))
+				return
+			}
+			// A Finalize that failed produced nothing and is no part of the Merlin
+			// history.  "Finalize invalidates the builder": a second attempt on the
+			// same builder may therefore refuse to work (panic or error), but if it
+			// does hand out an RNG, that RNG is the one the specification defines for
+			// (transcript, witnesses, entropy) - never silently another stream.
+			lb := x.retired
+			var (
+				r2   io.Reader
+				err2 error
+				buf  = c13Garbage(32, op.G^x.gx)
+			)
+			pn, _ := h.Catch(func() {
+				r2, err2 = lb.Finalize(&c13Reader{b: append([]byte(nil), c13FinalEntropy...), mode: (op.G + x.chunkx) % 3})
+				if err2 == nil && r2 != nil {
+					_, err2 = io.ReadFull(r2, buf)
+				}
+			})
+			if pn || err2 != nil || r2 == nil {
+				x.out(si, "TranscriptRngBuilder.Finalize(retry-after-failed-entropy):invalidated", nil)
+			} else {
+				x.out(si, "TranscriptRngBuilder.Finalize(retry-after-failed-entropy)", buf)
 			}
 			return
 		}
@@ -534,7 +560,11 @@ func c13RunModel(c c13Case) ([][]byte, c13Cov) {
 			m.rb = append(m.rb[:i:i], m.rb[i+1:]...)
 			ent := op.D.Bytes()
 			if len(ent) < 32 {
-				c13AddEv(&cov.ev, b.Events())
+				// the failed attempt is not part of the history: a retry (if the
+				// library allows one) yields the RNG of the untouched builder
+				rr := b.Finalize(c13FinalEntropy)
+				outs = append(outs, rr.FillBytes(32))
+				c13AddEv(&cov.ev, rr.Events())
 				continue
 			}
 			m.rr = append(m.rr, b.Finalize(ent[:32]))
@@ -606,7 +636,9 @@ func c13CheckHistory(c c13Case) h.Result {
 			r.Fail("harness:model-output-count", "library produced more outputs than the model")
 			return
 		}
-		if !bytes.Equal(got, want[k]) {
+		if strings.HasSuffix(what, ":invalidated") {
+			r.Class("retry-after-failed-Finalize:refused")
+		} else if !bytes.Equal(got, want[k]) {
 			r.Fail("merlin."+what+":differs-from-spec", "output #%d at step %d (%d bytes): got %s want %s",
 				k, step, len(got), c13Short(got), c13Short(want[k]))
 		}
@@ -636,6 +668,8 @@ func TestC13History(t *testing.T) { h.Run(t, c13GenCase, c13CheckHistory) }
 // reader, and a third time afterwards.  The outputs must be identical - and,
 // being a lock-step run, equal to the model's.
 
+var c13Refused = []byte("\x00retry-after-failed-Finalize:refused")
+
 func c13CheckTwin(c c13Case) h.Result {
 	r := h.NewR()
 	want, cov := c13RunModel(c)
@@ -643,7 +677,12 @@ func c13CheckTwin(c c13Case) h.Result {
 	fail := func(sig, format string, a ...interface{}) { r.Fail("merlin."+sig, format, a...) }
 	var outs [3][][]byte
 	keep := func(k int) func(int, string, []byte) {
-		return func(_ int, _ string, got []byte) { outs[k] = append(outs[k], append([]byte(nil), got...)) }
+		return func(_ int, what string, got []byte) {
+			if strings.HasSuffix(what, ":invalidated") {
+				got = c13Refused
+			}
+			outs[k] = append(outs[k], append([]byte(nil), got...))
+		}
 	}
 	a := &c13Lib{gx: 0, chunkx: 0, out: keep(0), fail: fail}
 	b := &c13Lib{gx: 0xff, chunkx: 1, out: keep(1), fail: fail}
@@ -664,6 +703,9 @@ func c13CheckTwin(c c13Case) h.Result {
 		}
 		for i := range x {
 			r.Eval(1)
+			if name == "differs-from-spec" && bytes.Equal(x[i], c13Refused) {
+				continue // a retry after a failed Finalize may be refused (see step "fin")
+			}
 			if !bytes.Equal(x[i], y[i]) {
 				r.Fail("merlin.determinism:"+name, "output #%d: %s vs %s", i, c13Short(x[i]), c13Short(y[i]))
 				return
